@@ -24,6 +24,7 @@ type heapKeyInfo struct {
 }
 
 type Verifier struct {
+	curProp string // the property being checked ("" outside `check`)
 	repo           string
 	verifDir       string
 	fset           *token.FileSet
